@@ -340,7 +340,7 @@ def run(cx, out):
     out.rule('R05.5', 'derived in-place decode_into reads the same representation as decode')
     # premises: derived decoders (C05); bulk decoding skips per-element validation only for the plain primitives named
     # by TYPE_INFO (C01 R01.3); in-place entry points perform the effects of decode (C02 R02.5, R02.2)
-    shared.premises(cx, out, {'c05': {'R05.2', 'R05.5'}, 'c01': {'R01.3'}, 'c02': {'R02.5', 'R02.2'}})
+    shared.premises(cx, out, {'c05': {'R05.2', 'R05.5'}, 'c01': {'R01.3'}, 'c02': {'R02.5', 'R02.2', 'R02.1'}, 'c08': {'R08.3'}})
     # panic sites in the code the derive macros generate (the same corpus), and the rule families R03.3 delegates to
     from . import panics as _panics, c09 as _c09, c11 as _c11
     from .. import facts as _fm
